@@ -13,8 +13,8 @@
    and for admissible layouts the tag-newline segmentation (Segments) sees a single segment. *)
 EXTENDS Naturals, Sequences, FiniteSets, TLC, Json
 CONSTANTS MaxWords, WordKinds, Seps, Containers, DoDump
-VARIABLES words, seps, cont, edits
-vars == <<words, seps, cont, edits>>
+VARIABLES words, seps, cont, edits, inner
+vars == <<words, seps, cont, edits, inner>>
 LineBreak(s) == s \in {"nl", "nli", "nll"}
 Admissible(ws, ss, c) ==
   /\ ws[1] \in {"p", "s", "a"}
@@ -24,13 +24,16 @@ Admissible(ws, ss, c) ==
 Canon(ws, ss) == ws                                   \* every separator is a whitespace run: token boundaries are the gaps
 Segments1(ws, ss) == ~\E g \in 1..Len(ss) : LineBreak(ss[g]) /\ (ws[g] = "t" \/ ws[g + 1] = "t")
 Init == /\ words \in UNION {[1..n -> WordKinds] : n \in 2..MaxWords} /\ cont \in Containers
-        /\ seps = [g \in 1..(Len(words) - 1) |-> "s1"] /\ edits = 0
+        /\ seps = [g \in 1..(Len(words) - 1) |-> "s1"] /\ edits = 0 /\ inner = FALSE
 Relayout(g, s) == /\ g \in 1..Len(seps) /\ s \in Seps /\ s # seps[g] /\ edits < Len(seps)
-                  /\ seps' = [seps EXCEPT ![g] = s] /\ edits' = edits + 1 /\ UNCHANGED <<words, cont>>
-Next == \E g \in 1..(MaxWords - 1), s \in Seps : Relayout(g, s)
+                  /\ seps' = [seps EXCEPT ![g] = s] /\ edits' = edits + 1 /\ UNCHANGED <<words, cont, inner>>
+\* the run of spaces INSIDE an atomic construct (link text, code span) is layout as well: inner = TRUE writes it as two spaces
+SpaceInside == /\ ~inner /\ \E j \in 1..Len(words) : words[j] = "a"
+               /\ inner' = TRUE /\ UNCHANGED <<words, seps, cont, edits>>
+Next == (\E g \in 1..(MaxWords - 1), s \in Seps : Relayout(g, s)) \/ SpaceInside
 Spec == Init /\ [][Next]_vars
-view == <<words, seps, cont>>
+view == <<words, seps, cont, inner>>
 CanonStable == Canon(words, seps) = words
 OneSegment == Admissible(words, seps, cont) => Segments1(words, seps)
-Dump == DoDump => PrintT(ToJson(<<"L", words, seps, cont, Admissible(words, seps, cont)>>))
+Dump == DoDump => PrintT(ToJson(<<"L", words, seps, cont, Admissible(words, seps, cont), inner>>))
 =============================================================================
